@@ -270,6 +270,9 @@ def strat_kauto(tier):
       name=st.sampled_from(_KAUTO + ["kautocor"] * 3), how=st.sampled_from(["attr", "item"]),
       seq=st.sampled_from(["list", "tuple"]),
       pert=st.lists(qs(-2, 2, 4), min_size=1, max_size=3),
+      # the equations are homogeneous: the same block at any amplitude has the same predictor;
+      # very quiet and very loud blocks are legitimate inputs (no "silence" threshold)
+      scale=st.sampled_from([1, 1, 1, Fraction(1, 10 ** 7), Fraction(1, 3 * 10 ** 9), 10 ** 6, Fraction(1, 2 ** 40)]),
       kw=st.booleans())))
 
 
@@ -281,6 +284,9 @@ def conv_energy(a, x):
 
 
 def run_kauto(case):
+  sc = Fraction(case.get("scale", 1))
+  if sc != 1:
+    case = dict(case, blk=[Q(fr(v) * sc) for v in case["blk"]])
   x = [fr(v) for v in case["blk"]]
   n = len(x)
   order = case["order"]
